@@ -113,8 +113,10 @@ def rsp_column(env, m, n, iters, fail_first=False, solver_kind='qr'):
     An, Xn = cm.as_nested(env, A), cm.as_nested(env, X)
     if res:
         proxy2 = _f2(_sub(Pi, cm_matmul_nested(Xn, cm_matmul_nested(An, Pi))))
-        env.eq('last reported proxy is the proxy of the returned X', [res[-1] ** 2 * _f2(Pi)], [proxy2])
-    env.holds('converged flag = (last proxy <= tol)', info['converged'] == (bool(res) and bool(res[-1] <= tol)))
+        pi2 = _f2(Pi)
+        env.holds('last reported proxy is the proxy of the returned X (unless the test sketch is numerically zero)',
+                  (pi2 < Fraction(1, 10 ** 60)) | (res[-1] ** 2 * pi2 == proxy2))
+    env.holds('converged flag = (last proxy <= tol)', bool(info['converged']) == (bool(res) and bool(res[-1] <= tol)))
     if iters == 1 and not fail_first and res:
         # sketched constraint after one step: X+ A Omega = Omega up to the 1e-30 regulariser of the triangular solve
         Om = [[[draws[4 + c][i, 0] for c in range(4)]] for i in range(n)]
@@ -129,10 +131,10 @@ def rsp_column(env, m, n, iters, fail_first=False, solver_kind='qr'):
                [[[v * (y2 + reg) for v in e] for e in r] for r in lhs], [[[-reg * v for v in e] for e in r] for r in rhs])
 
 
-def hybrid(env, m, n, p, cycles=1):
+def hybrid(env, m, n, p, cycles=1, diag=False):
     """HybridRSPNewtonSchulz.compute: the last reported proxy is the proxy of the returned X and the converged flag is computed from it"""
     Sv = env.R.solver
-    A = env.qarr('a', (m, n), 'real')
+    A = env.qarr('a', (m, n), (lambda idx: 'real' if idx[0] == idx[1] else 'zero') if diag else 'real')
     _nz(env, A)
     tol = Fraction(1, 10 ** 6) if env.symbolic else 1e-6
     if not env.symbolic:
@@ -152,9 +154,13 @@ def hybrid(env, m, n, p, cycles=1):
     def hook(shape, tag):
         import numpy as np
         a = np.empty(shape, dtype=object)
+        comp = len(draws) % 4          # the solver draws the four components of a sketch one after the other
         for i in range(a.size):
-            shim.NP._ndraw += 1
-            a.flat[i] = S.CTX.newvar('rnd%d' % shim.NP._ndraw)
+            if diag and comp != 0:
+                a.flat[i] = S.K(Fraction(0))     # stated bound of the diagonal cell: real-axis sketches
+            else:
+                shim.NP._ndraw += 1
+                a.flat[i] = S.CTX.newvar('rnd%d' % shim.NP._ndraw)
         draws.append(a.view(shim.RArr))
         return draws[-1]
     shim.NP._draw_hook = hook
@@ -170,8 +176,10 @@ def hybrid(env, m, n, p, cycles=1):
     Pi = [[[draws[c][i, j] for c in range(4)] for j in range(k)] for i in range(n)]
     An, Xn = cm.as_nested(env, A), cm.as_nested(env, X)
     proxy2 = _f2(_sub(Pi, cm_matmul_nested(Xn, cm_matmul_nested(An, Pi))))
-    env.eq('last reported proxy is the proxy of the returned X', [res[-1] ** 2 * _f2(Pi)], [proxy2])
-    env.holds('converged flag = (last proxy <= tol)', info['converged'] == bool(res[-1] <= tol))
+    pi2 = _f2(Pi)
+    env.holds('last reported proxy is the proxy of the returned X (unless the test sketch is numerically zero)',
+              (pi2 < Fraction(1, 10 ** 60)) | (res[-1] ** 2 * pi2 == proxy2))
+    env.holds('converged flag = (last proxy <= tol)', bool(info['converged']) == bool(res[-1] <= tol))
     env.holds('info echoes the configuration', info['r'] == 1 and info['p'] == p and info['T'] == 1)
 
 
@@ -216,11 +224,13 @@ def cells():
         out.append(Cell('cgne[%dx%d,%s,k=%d]' % (m, n, kind, k), 'c13:cgne', dict(m=m, n=n, k=k, kind=kind), tier=tier, twin=((m, n, k) == (2, 1, 1)),
                         twin_timeout_s=600, bounds='A %dx%d (%s) symbolic, %d CG step(s)' % (m, n, kind, k), **big))
     for (m, n), iters, fail, tier in [((1, 1), 1, False, 'quick'), ((2, 1), 1, False, 'quick'), ((1, 1), 2, False, 'quick'), ((1, 1), 2, True, 'quick'),
-                                      ((2, 2), 1, False, 'quick'), ((2, 2), 2, True, 'thorough'), ((2, 1), 2, True, 'thorough'), ((2, 1), 2, False, 'thorough')]:
+                                      ((2, 2), 1, False, 'thorough'), ((2, 2), 2, True, 'thorough'), ((2, 1), 2, True, 'thorough'), ((2, 1), 2, False, 'thorough')]:
         out.append(Cell('rsp_column[%dx%d,iters=%d%s]' % (m, n, iters, ',micro-solver failure injected' if fail else ''), 'c13:rsp_column',
                         dict(m=m, n=n, iters=iters, fail_first=fail), tier=tier, twin=False,
                         bounds='A %dx%d real-axis symbolic, block size 1, all sketch draws symbolic' % (m, n), **big))
-    for (m, n), p, tier in [((2, 1), 2, 'quick'), ((2, 2), 2, 'quick'), ((3, 2), 3, 'thorough')]:
+    out.append(Cell('hybrid[2x2 diagonal,p=2]', 'c13:hybrid', dict(m=2, n=2, p=2, diag=True), tier='thorough', twin=False,
+                    bounds='A = diag(a, d) real symbolic, r = 1, T = 1, one cycle, sketch draws symbolic on the real axis', **big))
+    for (m, n), p, tier in [((2, 1), 2, 'quick'), ((2, 2), 2, 'thorough'), ((3, 2), 3, 'thorough')]:
         out.append(Cell('hybrid[%dx%d,p=%d]' % (m, n, p), 'c13:hybrid', dict(m=m, n=n, p=p), tier=tier, twin=False,
                         bounds='A %dx%d real-axis symbolic, r = 1, T = 1, one cycle, all draws symbolic' % (m, n), **big))
     for (m, n), p, tier in [((1, 1), 2, 'quick'), ((2, 1), 2, 'quick'), ((2, 2), 2, 'thorough'), ((2, 1), 3, 'quick'), ((2, 1), 4, 'thorough')]:
